@@ -76,6 +76,10 @@ def posAt {τ} (their : List (TParam τ)) (i : Nat) : Option (TParam τ) :=
 def kwAt {τ} (their : List (TParam τ)) (n : String) : Option (TParam τ) :=
   (their.find? (·.name == n)).filter (fun t => t.kind == .posOrKw || t.kind == .kwOnly)
 
+/-- `other.parameters.get(name)` if it exists and is keyword-only. -/
+def koAt {τ} (their : List (TParam τ)) (n : String) : Option (TParam τ) :=
+  (their.find? (·.name == n)).filter (fun t => t.kind == .kwOnly)
+
 /-- Loop state: `i` of `enumerate`, `consumed_positional`, `consumed_required_pos_only`,
 `consumed_keyword`. -/
 structure SaSt where
@@ -114,7 +118,13 @@ def saStep {τ} (R : TyRel τ) (their : List (TParam τ)) (argsAnn kwargsAnn : O
     | none =>
       match argsAnn, kwargsAnn with
       | some T, some U =>
-        if !R.evp T my.ann then none else if !R.evk U my.ann then none else st.next
+        if !R.evp T my.ann then none                        -- can_assign_var_positional
+        else
+          match koAt their my.name with                     -- (fix d699eb1) their keyword-only parameter of
+          | some t =>                                       -- the same name receives the keyword, not **kwargs
+            if !R.asg t.ann my.ann then none else st.next
+          | none =>                                         -- no such parameter, or one of another kind
+            if !R.evk U my.ann then none else st.next       -- can_assign_var_keyword
       | _, _ => none                                        -- "parameter … is not accepted"
   | .kwOnly =>
     match kwAt their my.name with
